@@ -9,6 +9,25 @@ NOTE_COMMON = ("Trusted: Lean 4.33 kernel; axioms ⊆ {propext, Classical.choice
                "implementation by differential execution (sampled), not by proof. ")
 
 CLAIMED = {
+ "C08": dict(
+   text=("Lean theorems over all instants and all chains: the formats' time grids are nested (frames of milliseconds = frames, ...), each hop is idempotent, a "
+         "chain of any length brings an instant to the coarsest grid on the chain and nothing more (chain_coarsest, induction over the chain), and a second "
+         "pass is the identity (second_pass_identity) - so 'no drift' follows once each hop truncates to its grid, which C01/C02 establish per format. "
+         "Execution with pycaption's own readers: all 25 ordered pairs (125 triples in thorough) plus sampled longer chains, two passes, per-language "
+         "(start, end, normalised text) compared after every hop with the sequentially coarsened original (SAMI: last cue = start + 4 s)."),
+   ref="§3 C08", technique="Lean 4 proof (omega over nested grids, induction over the format chain) + exhaustive pair/triple execution with the real readers and writers",
+   note=NOTE_COMMON + "hop_obs per format (write then parse then read = coarsen) is composed from the C01-C04 models only by execution, not by a single theorem; languages are compared by code (order is C14's subject)."),
+ "C14": dict(
+   text=("Lean theorems: DFXP div language = own xml:lang, else the document's, else the configured default (dfxp_lang_fallback); the languages of a document are "
+         "exactly the resolved div languages, each once, in first-appearance order (dfxp_languages_first_appearance, invariant over the ordered-dict fold); "
+         "for sorted non-overlapping cues the SAMI SYNC blocks of a language come out in non-decreasing time order (primary_syncs_sorted, via C02's sync-plan "
+         "theorem). The multi-language SAMI sync plan (lookup of an existing block, insertion after the last earlier / before the first later one) is an "
+         "executable model compared with the writer for 1-4 languages; DFXP/SAMI outputs are parsed independently (one div per language in order with its "
+         "cues; paragraphs in the block of their start time) and read back; force=, WebVTT lang=, reader lang= and the div-language fallback incl. "
+         "PYCAPTION_DEFAULT_LANG are exercised (sub-process)."),
+   ref="§3 C14", technique="Lean 4 proof (ordered-dict invariant, sortedness induction) + sync-plan correspondence + independent parsers + sub-process configuration",
+   note=NOTE_COMMON + "Sortedness of the multi-language plan is checked by execution only. Known finding C14-sami-language-prefix ('en' also collects 'en-US' paragraphs) is listed in known_findings.json."),
+
  "C09": dict(
    text=("Structure flags regenerated from the AST of the eight writer classes on every run (write() rebinds its argument to a deepcopy before any use other "
          "than pure getters / helper that does; no method stores into foreign objects; open_span is reset at entry) feed Lean theorems: every writer copies "
